@@ -57,6 +57,13 @@ def q_drop_witness(s, job, n):
     return z3.And(z3.Not(f.recv_alive), s.all_workers_done(s.K)), 'sat'
 
 
+def q_drop_join_blocks(s, job, n):
+    # the consumer's Drop impl joins the background thread(s) before the receiver is dropped: dropping at a state in
+    # which a thread is blocked (and only the consumer could unblock it) never returns
+    f = final(s)
+    return z3.And(f.recv_alive, s.workers_blocked(s.K)), 'unsat'
+
+
 def q_panic(s, job, n):
     f = final(s)
     return z3.And(f.panicked, z3.Not(f.exited)), 'unsat'
@@ -69,4 +76,4 @@ def q_panic_witness(s, job, n):
 
 QUERIES = {'witness': q_witness_complete, 'safety': q_safety, 'stuck': q_stuck, 'termination': q_termination,
            'lookahead': q_lookahead, 'lookahead_tight': q_lookahead_tight, 'drop_pulls': q_drop_pulls,
-           'drop_stuck': q_drop_stuck, 'drop_witness': q_drop_witness, 'panic': q_panic, 'panic_witness': q_panic_witness}
+           'drop_stuck': q_drop_stuck, 'drop_witness': q_drop_witness, 'drop_join_blocks': q_drop_join_blocks, 'panic': q_panic, 'panic_witness': q_panic_witness}
